@@ -290,11 +290,12 @@ def flatten_phi(e):
     return [e]
 
 
-ADAPTORS = ("Iterator::inspect", "Iterator::map", "Iterator::filter", "Iterator::filter_map", "Iterator::enumerate", "Iterator::rev",
+ADAPTORS = ("Iterator::flatten", "Iterator::flat_map", "Iterator::inspect", "Iterator::map", "Iterator::filter", "Iterator::filter_map", "Iterator::enumerate", "Iterator::rev",
             "Iterator::zip", "Iterator::take", "Iterator::take_while", "Iterator::skip", "Iterator::cloned",
             "Iterator::copied", "LimitSort::limit_sort_unstable", "LimitSort::limit_sort",
             "IntoIterator::into_iter", "<impl [T]>::iter", "<impl [T]>::iter_mut", "Vec::iter", "Vec::drain",
-            "Iterator::collect", "Iterator::sum", "Iterator::count", "Iterator::min", "Iterator::max",
+            "Iterator::collect", "Iterator::sum", "Iterator::count", "Iterator::min", "Iterator::max", "Iterator::min_by_key",
+            "Iterator::max_by_key",
             "Iterator::find", "Iterator::any", "Iterator::all", "Option::unwrap_or")
 
 
